@@ -24,8 +24,11 @@ repo, root = os.environ['C16_REPO'], os.environ['C16_ROOT']
 src = open(repo + '/pools.go').read()
 new = re.sub(r'import\s+"sync"', 'import sync "github.com/asticode/go-astits/verifsync"', src)
 new = re.sub(r'^(\s*)"sync"\s*$', r'\1sync "github.com/asticode/go-astits/verifsync"', new, flags=re.M)
+# sync/atomic operations in pools.go become scheduling points as well (check-then-act built from single atomics)
+new = re.sub(r'import\s+"sync/atomic"', 'import atomic "github.com/asticode/go-astits/verifatomic"', new)
+new = re.sub(r'^(\s*)"sync/atomic"\s*$', r'\1atomic "github.com/asticode/go-astits/verifatomic"', new, flags=re.M)
 open(root + '/bin/c16/pools_overlay.txt', 'w').write(new)
-json.dump({"Replace": {repo + "/pools.go": root + "/bin/c16/pools_overlay.txt", repo + "/verifsync/verifsync.go": root + "/shim/verifsync.go"}}, open(root + '/bin/c16/overlay.json', 'w'))
+json.dump({"Replace": {repo + "/pools.go": root + "/bin/c16/pools_overlay.txt", repo + "/verifsync/verifsync.go": root + "/shim/verifsync.go", repo + "/verifatomic/verifatomic.go": root + "/shim/verifatomic.go"}}, open(root + '/bin/c16/overlay.json', 'w'))
 print("overlay: sync redirected" if new != src else "overlay: pools.go does not import sync (shim inactive)")
 PY
 if ! go build $MODFLAG -overlay bin/c16/overlay.json -tags "verif c16shim" -o bin/c16sched ./cmd/c16 2>bin/c16/build.err; then
